@@ -469,3 +469,118 @@ func TestC02BitFlips(t *testing.T) {
 		t.Fatalf("%d violations", nviol)
 	}
 }
+
+// ---------- replays across key rotations ----------
+
+type rotCase struct {
+	Cfg   hsConfig `json:"cfg"`
+	Dir   int      `json:"dir"`
+	Count int      `json:"count"` // records written (crosses one or more rotations)
+	Len   int      `json:"len"`
+	Same  bool     `json:"same"`  // all records carry the same plaintext
+	At    int      `json:"at"`    // position at which the stream is tampered with
+	Src   int      `json:"src"`   // record delivered there instead of record At
+}
+
+// runC02Rot writes Count records, delivers 0..At-1 untouched, then record Src
+// in place of record At. The reader must fail at position At (unless Src == At).
+func runC02Rot(c *rotCase) string {
+	p, err := established(c.Cfg)
+	if err != nil {
+		return err.Error()
+	}
+	w, r := p.I.m, p.R.m
+	if c.Dir == 1 {
+		w, r = p.R.m, p.I.m
+	}
+	recs := make([][]byte, c.Count)
+	pts := make([][]byte, c.Count)
+	for i := range recs {
+		if c.Same {
+			pts[i] = entropy(c.Cfg.Seed, "rot-same", c.Len)
+		} else {
+			pts[i] = entropy(c.Cfg.Seed, fmt.Sprintf("rot/%d", i), c.Len)
+		}
+		if recs[i], err = writeRecord(w, pts[i]); err != nil {
+			return "write failed: " + err.Error()
+		}
+	}
+	for i := 0; i < c.At; i++ {
+		got, err := safeRead(r, bytes.NewReader(recs[i]))
+		if err != nil {
+			return fmt.Sprintf("untouched record %d of %d failed to decrypt: %v", i, c.Count, err)
+		}
+		if !bytes.Equal(got, pts[i]) {
+			return fmt.Sprintf("untouched record %d decrypted to different bytes", i)
+		}
+	}
+	got, err := safeRead(r, bytes.NewReader(recs[c.Src]))
+	if c.Src == c.At {
+		if err != nil || !bytes.Equal(got, pts[c.At]) {
+			return fmt.Sprintf("record %d failed although nothing was changed: %v", c.At, err)
+		}
+		return ""
+	}
+	if isPanic(err) {
+		return "reader panicked: " + err.Error()
+	}
+	if err == nil {
+		return fmt.Sprintf("record %d delivered at position %d (distance %d) was accepted as valid and returned %d bytes", c.Src, c.At, c.At-c.Src, len(got))
+	}
+	return ""
+}
+
+func TestC02CrossRotation(t *testing.T) {
+	const unit = "TestC02CrossRotation"
+	rec := stats.New(t, "C02", unit)
+	var rc rotCase
+	if stats.ReplayCase(unit, &rc) {
+		if v := runC02Rot(&rc); v != "" {
+			rec.Violation(v, "rot", rc)
+			t.Fatal(v)
+		}
+		return
+	}
+	if stats.ReplayMode() {
+		t.Skip()
+	}
+	rapid.Check(t, func(rt *rapid.T) {
+		c := &rotCase{Cfg: genCleanCfg(rt), Dir: rapid.IntRange(0, 1).Draw(rt, "dir")}
+		c.Len = rapid.SampledFrom([]int{0, 1, 2, 16, 40}).Draw(rt, "len")
+		c.Same = rapid.Bool().Draw(rt, "same")
+		c.At = rapid.OneOf(rapid.IntRange(1, 1700), rapid.SampledFrom([]int{499, 500, 501, 999, 1000, 1001, 1500})).Draw(rt, "at")
+		c.Count = c.At + 1
+		// the record delivered instead: an earlier one, preferably at a
+		// distance that is a multiple of the rotation period (500 records) or
+		// of half of it (the nonce counter runs two per record)
+		dist := rapid.SampledFrom([]int{1, 2, 250, 499, 500, 501, 1000, 1500, 0}).Draw(rt, "dist")
+		if dist == 0 {
+			dist = rapid.IntRange(1, c.At).Draw(rt, "dist_any")
+		}
+		c.Src = c.At - dist
+		if c.Src < 0 {
+			c.Src = c.At % 500
+			if c.Src == c.At {
+				c.Src = 0
+			}
+		}
+		rec.Current("rot", c)
+		v := runC02Rot(c)
+		lab := "replay_within_epoch"
+		if c.At/500 != c.Src/500 {
+			lab = "replay_across_rotation"
+		}
+		if (c.At-c.Src)%500 == 0 {
+			lab += "_aligned"
+		}
+		rec.Case(c.At/500 != c.Src/500, fmt.Sprintf("%+v", *c), lab)
+		if c.At/500 != c.Src/500 && rec.WantSample() {
+			rec.Sample(c)
+		}
+		if v != "" {
+			rec.Pending(v, "rot", c)
+			rt.Fatalf("%s", v)
+		}
+	})
+	rec.Done()
+}
